@@ -610,6 +610,7 @@ def run(ck: Checker) -> None:
     ck.guard("R-LEG-IDENT", lambda: r_leg_pop_as_test(ck))
     from . import state_rules as S_c
     ck.guard("R-LEG-LINK", lambda: S_c.r_class_attr_cache(ck, "R-LEG-LINK", (LNODE,)))
+    ck.guard("R-LEG-LINK", lambda: S_c.r_class_keyed_memo(ck, "R-LEG-LINK", (LNODE,), "which fields hold children is asked of every node: an untyped field holds a child in one instance and a plain value in the next"))
     from . import state_rules as S_
     ck.guard("R-LEG-DIGEST", lambda: S_.r_unstable_key(ck, "R-LEG-DIGEST", [(LNODE, "AwareASTNode")], "ids move between legacy nodes (replace_with hands the old id to the new node)"))
     ck.guard("R-LEG-IDENT", lambda: r_leg_live_links(ck))
